@@ -7,6 +7,7 @@ import NPModel.Refine.Fields
 import NPModel.Refine.Samples
 import NPModel.Refine.SetItemRect
 import NPModel.Refine.DropNa
+import NPModel.Refine.ViewTrips2
 namespace NP.C01
 open NP
 variable {α : Type}
@@ -160,5 +161,17 @@ theorem take_validates (c c' : PCol α) (indices : List Int) (allowFill : Bool) 
   all_goals first
     | (cases h; done)
     | exact constructor_validates _ c' h
+
+/-- **`pack_seq` (behind `pack(<sequence>)`, `from_sequence`, `add_nested(<sequence>)`) refuses ragged
+    input**: as soon as ONE of the offered rows is not rectangular under the dtype — whatever the other
+    rows are, however many — nothing is packed and the call fails with ValueError; and when every row is
+    rectangular it stores exactly those rows (`C02.pack_seq_stores_the_rows`). -/
+theorem pack_seq_refuses_ragged (idx : List Label) (ty : List (String × String)) (rows : List (Row α))
+    (r : Row α) (hr : r ∈ rows) (hrag : Row.rect (normRow ty r) = false) :
+    packSeq idx ty rows = .error .valueError :=
+  packSeq_ragged idx ty rows r hr hrag
+
+/-- non-vacuity: a dict-like row whose two fields have 2 and 1 values is ragged under its dtype -/
+example : Row.rect (normRow [("a", "int64"), ("b", "int64")] (some [("a", [1, 2]), ("b", [(3 : Nat)])])) = false := by decide
 
 end NP.C01
